@@ -381,7 +381,20 @@ int32 parseClientHello(ssl_t *ssl, unsigned char **cp, unsigned char *end)
                @see https://tools.ietf.org/html/rfc7507#section-3.*/
             if (cipher == TLS_FALLBACK_SCSV)
             {
-                if (ssl->peerHelloVersion < psVerGetHighestTls(GET_SUPP_VER(ssl)))
+                psProtocolVersion_t highest;
+
+                highest = psVerGetHighestTls(GET_SUPP_VER(ssl));
+#  ifdef USE_DTLS
+                if (ssl->peerHelloVersion & v_dtls_any)
+                {
+                    /* psVerGetHighestTls skips the DTLS versions: compare a
+                       DTLS hello with the highest DTLS version we support
+                       (RFC 7507 applies to DTLS as well). */
+                    highest = psVerGetHighest(GET_SUPP_VER(ssl) & v_dtls_any,
+                            1);
+                }
+#  endif
+                if (ssl->peerHelloVersion < highest)
                 {
                     ssl->err = SSL_ALERT_INAPPROPRIATE_FALLBACK;
                     psTraceErrr("Inappropriate version fallback\n");
